@@ -19,7 +19,7 @@ from ..model import AnalysisError
 from ..paths import GENEXIT
 from ..types import Callee
 from .. import rules
-from . import c20
+from . import c20, _scope
 
 PROP = 'C16'
 MOD = 'usim._concurrent.basics'
@@ -412,6 +412,9 @@ def run(check, an: Analysis):
     # forced close -- the scope closes the remaining activities on its way out
     check.rule('abort', 'every exit of the scope of collect()/first() closes the rest')
     c04.check_close_on_every_exit(check, an, 'abort', [SCOPE])
+    # the scope absorbs its own cancellation only: what interrupts the *caller* of
+    # collect()/first() from outside passes through after the rest was aborted
+    _scope.check_suppression(check, an, 'abort')
     # aborting the rest: closing children iterates copies (a closed child removes itself)
     for name in ('_close_children', '_close_volatile'):
         fn = an.method(SCOPE, name)
